@@ -6,6 +6,6 @@ CONSTANTS
   Strats <- NoStrats
   Strats2 <- StratsBilinear
   Ids <- OneId
-INVARIANTS OnlyValidBuilt SameQuestionSameAnswer ElementsAgree AnsweredIffInRange FiniteNeverRejected ShapeOk BadBufferNeverOk KnotsReproduced PeriodicFunction
+INVARIANTS OnlyValidBuilt SameQuestionSameAnswer ElementsAgree AnsweredIffInRange FiniteNeverRejected ShapeOk EmptyBatchAnswered BadBufferNeverOk KnotsReproduced PeriodicFunction
 PROPERTY Immutable
 CHECK_DEADLOCK FALSE
